@@ -5,6 +5,7 @@ import WebpVerif.Lemmas.Vp8Ctx
 import WebpVerif.Lemmas.Vp8Mode
 import WebpVerif.Lemmas.Vp8Border
 import WebpVerif.Lemmas.Vp8Pred
+import WebpVerif.Lemmas.Vp8Coef
 
 /-!
 # C02 — VP8 key-frame reconstruction is bit-exact
@@ -364,5 +365,24 @@ theorem dc_is_reference (a : Array Nat) (hbytes : ∀ i : Nat, a[i]! < 256) (siz
 -- non-vacuity: the luma workspace (21 x 17) meets the hypotheses at sub-block (3, 3)
 example : (13 : Nat) + 4 ≤ 21 ∧ (13 + 4) * 21 ≤ (Array.replicate (21 * 17) 0).size := by
   rw [Array.size_replicate]; decide
+
+
+/-! ### token decoding
+
+`Vp8Coef.readCoefficients` is the model of `Vp8Decoder::read_coefficients` on top of the boolean
+decoder model of C15 (band / context selection, the token tree entered at node `skip`, the
+category extra bits, sign, dequantisation at the zigzag position, `has_coefficients`, the final
+`check`), tied to the real function through hook 99a8eca on random and biased partitions, default
+and random probability tables, all planes and contexts, several calls per partition. -/
+
+/-- **No coefficient overflows.**  For every partition, probability table, plane, starting context
+    and quantiser pair: every value `read_coefficients` leaves in the block is at most 2114
+    quantiser steps in magnitude (the largest token value is 67 + 2^11 − 1 = 2114, inside i16;
+    with i16 quantisers the product stays below 2^27, inside i32) -/
+theorem coefficients_are_bounded (d : Arith.Dec) (probs : Nat → Nat → List Nat) (plane complexity : Nat) (dcq acq : Int) (Q : Nat)
+    (hd : dcq.natAbs ≤ Q) (ha : acq.natAbs ≤ Q) (d' : Arith.Dec) (block : Array Int) (r : Option Bool)
+    (h : Vp8Coef.readCoefficients d probs plane complexity dcq acq = some (d', block, r)) :
+    ∀ z : Nat, (block[z]?.getD 0).natAbs ≤ 2114 * Q :=
+  Vp8CoefProof.coefficients_bounded d probs plane complexity dcq acq Q hd ha d' block r h
 
 end C02
